@@ -20,9 +20,10 @@ CLAIMED = {
              'C01_exit0_final) and for every plan (C01_fault_reported): after executing an action list the message is bound exactly once '
              'to a complete stage, every other entry and file is untouched, nothing this run created remains except the message itself, '
              'a failing call outside the explicit ignored sites (close, closedir, the fstatat of maildir_move; EEXIST/EXDEV are handled) '
-             'makes the result an error, and no error means the final place and content. These are stated for matchesExec of one '
-             'message; the lift to the whole run is C04_frame/C04_isolation_calls (calls of one message only touch its own name and names '
-             'it created) plus the sweep on the real binary. Trusted: Lean kernel; the abstract file system (applyOk/predict) as model of '
+             'makes the result an error, and no error means the final place and content (per message: C01_message_exit0). The whole run, '
+             'EVERY fault plan, after EVERY call of mainP in maildir mode over any population and configuration without discard: every '
+             'registered message still has an entry bound to a version of it and the processing of one message leaves every other entry '
+             'and file alone (C01_start_of_parse, C01_message_no_loss, C01_walk_no_loss, C01_main_no_loss). Trusted: Lean kernel; the abstract file system (applyOk/predict) as model of '
              'POSIX; the shim; stdio internals (faults injected at fflush/fclose level and through RLIMIT_FSIZE). Known findings F17a-e: '
              'failures of close/closedir/fclose(config)/fstatat(mtime)/spool cleanup are not reported (exit 0).',
         technique='Lean 4 proof (invariant over all fault plans of a program-over-calls model) + trace conformance of the real binary + fault sweep'),
@@ -33,8 +34,12 @@ CLAIMED = {
              '(C02_power_failure). Tied to the real binary: the process is SIGKILLed before every call of 18 scenarios (~1100 kills, tree must '
              'keep an intact copy, the killed trace must be a prefix of a run of Model.mainP), and every fault-free real trace is replayed under '
              'the storage model (no original removed before its copy is complete on stable storage).',
-        note='Trusted: as C01, plus the storage model itself (real power failures are not reproduced); stdio buffering is modelled as: fprintf '
-             'fills a buffer that reaches the file at fflush/fclose.',
+        note='Also machine-checked for the WHOLE run (every fault plan, after every call of mainP = every kill point): the durable content of '
+             'some entry is a version of every registered message (C02_message/walk/main_power_failure); stdin delivery: exit status 0 '
+             'implies a durable complete copy outside the spool whenever the rule list moves the message (C02_stdin_exit0). On the real '
+             'trace the check also requires every file renamed into a maildir to be completely on stable storage at that moment. '
+             'Trusted: as C01, plus the storage model itself (real power failures are not reproduced); stdio buffering is modelled as: '
+             'fprintf fills a buffer that reaches the file at fflush/fclose.',
         technique='Lean 4 proof (always-invariant over call prefixes incl. durable content) + kill sweep + trace replay under the storage model'),
     'C03': dict(
         text='Machine-checked (C03_eval_refines_spec, ~2800 lines of proofs): for EVERY environment (regex engine, clock, commands, file '
@@ -115,8 +120,11 @@ CLAIMED = {
              'quoted_printable_decode/rfc2047_decode, skipseparator/findheader (with its in-place NUL writes)/the header loop/'
              'unfoldheader/searchheader, skipline/parseboundary/findboundary/parseattachments/message_get_attachments, pathslice/'
              'isbackref/ismacro never read or write out of bounds and never use a stale vector pointer (the pinned use-after-free is '
-             'exhibited as Fault.uaf), and the decoders/unfoldheader/skipseparator/skipline/strcasecmp refine the list-level model '
-             '(functional refinement of the remaining ones is exercised by the l0 stage on every run, proof in progress). Still '
+             'exhibited as Fault.uaf), and EVERY one of them computes exactly what the list-level model computes (C07_L0_refines_*: '
+             'findheader, the header loop and sort, searchheader, the MIME scanners, parseattachments at every depth, whole files, '
+             'pathslice, isbackref, ismacro - unconditionally, after the list-level findboundary was repaired to follow message.c on '
+             'boundaries containing a newline, a discrepancy this refinement proof found), so the functional theorems of C08/C10/C11/'
+             'C12/C16 transfer to the index-level code; the l0 stage also compares both levels on every run. Still '
              'trusted/not modelled: malloc itself, glibc regex, stdio, size_t overflow in vector_reserve1, the libks output buffer. '
              'Inputs up to 64 KiB, C locale, fixed configuration battery (harness/fuzz/battery.conf).',
         technique='Lean 4 proof of the bounds/progress facts + differential execution under ASan/UBSan on hostile inputs + coverage-guided '
@@ -204,8 +212,10 @@ CLAIMED = {
              'unknown macro / unterminated macro are errors of the whole list (C12_failed_template_fails_all) and then the run issues no '
              'mutating call for that message under arbitrary call results (C12_error_no_effect). Trusted: Lean kernel, Spec/Interp.lean, '
              'generators, platform regexec. Templates with `\\N.` not followed by a digit are outside the specification (strtoul quirk, '
-             'recorded in DESIGN.md). Parse-time macro expansion is part of the parser model (Model/Conf.lean, tied to the real parser by '
-             'the C14 correspondence); its theorems are in progress.',
+             'recorded in DESIGN.md). Parse-time macro expansion (Model/Conf.lean, tied to the real parser by the C14 correspondence and '
+             'by a macro stage against Spec.mexpand): C12_macros (expandmacros = one token-wise pass, values inserted verbatim and never '
+             'rescanned, ${path} deferred exactly in action contexts), C12_macro_definitions (-D wins, redefinition refused), '
+             'C12_macros_value_reaches_action_pass (the a="$" b="{path}" corner as a theorem).',
         technique='Lean 4 proof (C loop = token-wise substitution) + differential execution + spec evaluated on real captures'),
     'C13': dict(
         text='PARTIAL. Machine-checked for arbitrary call results (runOracle): the argument vector is one interpolated string per configured '
@@ -244,7 +254,13 @@ CLAIMED = {
         note='Not modelled: error recovery after the first diagnostic (only "non-zero" and the first line are compared) and the stack '
              'limit of the generated parser (nesting deeper than 10000 states is rejected with "memory exhausted"). regcomp is an oracle '
              '(the platform library on both sides of the comparison). A NUL byte in the file is end-of-input for the parser (observed and '
-             'modelled). The theorem about rejection is about main() given the parser\'s verdict.',
+             'modelled). Text to run: Model.mainText composes the parser model with the run; a rejected TEXT (any of the error classes '
+             'anywhere) issues only fopen/fclose of the configuration and exits 1/75, an accepted one runs exactly its tree '
+             '(C14_reject_whole_text, C14_accepted_runs_its_tree, C14_well_formed_or_untouched), checked against real runs followed both '
+             'through the real parser\'s trees and through the model parser. Lexer diagnostics (l and u together, unknown/ambiguous '
+             'unit, literal >= 2^32) reject the file (C14_error_classes_lexer, _tokens). Two genuine defects found by this machinery '
+             'were repaired in /repo: e1b4ff1 (empty attachment block accepted, SIGSEGV at run time) and 441105a (macros in add-header/'
+             'flags strings neither expanded nor validated); the 18 x 7 macro context matrix passes without exception since.',
         technique='Lean 4 proof (lexer; parser totality/progress, accepted => well formed, error classes, print/parse round trip; '
                   'reject-as-a-whole of main) + token-level and parser-level differential execution of the real bison parser + edit '
                   'catalogue and termination sweep on the real binary'),
